@@ -78,11 +78,14 @@ func init() {
 			"Set at offset==len with a non-empty source may answer n=0,nil or an error",
 			"Truncate(size>len) may be a no-op or an error; negative sizes must be refused",
 		},
-		NumCases: func(env *core.Env) int { a, b, c := c19blocks(env); return a + b + c },
-		Batch:    8,
-		Run:      c19run,
+		NumCases:  func(env *core.Env) int { a, b, c := c19blocks(env); return a + b + c },
+		Batch:     8,
+		Run:       c19run,
 		PreParent: c19wasm,
-		Describe: func(env *core.Env, idx int) any { k, ps := c19programs(env, idx); return fmt.Sprintf("%s block of %d programs", k, len(ps)) },
+		Describe: func(env *core.Env, idx int) any {
+			k, ps := c19programs(env, idx)
+			return fmt.Sprintf("%s block of %d programs", k, len(ps))
+		},
 		Exhaustive: func(env *core.Env) bool { return false },
 		Floor: func(env *core.Env, agg *core.Agg) string {
 			if agg.Counters["calls"] < 100000 || agg.Counters["self_sets"] < 100 || agg.Counters["bad_args"] < 1000 {
